@@ -1,7 +1,69 @@
-(* C16 -- placeholder until the session theorems for this property are in place *)
-From SF Require Import Session Session_proofs Session_c07.
-Theorem C16_pre_logon_frame : forall cfg s o s' os,
-    not_logged s -> pools_ok s -> not_app_send o -> step cfg s o = (s', os) ->
-    Forall post_logon_types (wire_types os).
-Proof. exact logon_step_wires. Qed.
-Print Assumptions C16_pre_logon_frame.
+(* C16 -- Invalid admin messages are rejected by sequence number and change nothing. *)
+From SF Require Import Bytes Values Wire Parse Session Session_proofs Session_clean Session_handlers.
+
+(* every administrative handler hands a message that does not parse (integrity check or an
+   unparsable field) or that is not permitted in the current state to RejectMessage *)
+Theorem C16_heartbeat :
+  forall cfg s d, (forall m, parse_as msgtype_Heartbeat tpl_Heartbeat d <> Ok m) \/ is_logged s = false ->
+    handler_rejects cfg s HHeartbeat d.
+Proof. exact heartbeat_invalid. Qed.
+Print Assumptions C16_heartbeat.
+Theorem C16_testrequest :
+  forall cfg s d, (forall m, parse_as msgtype_TestRequest tpl_TestRequest d <> Ok m) \/ is_logged s = false ->
+    handler_rejects cfg s HTestRequest d.
+Proof. exact testrequest_invalid. Qed.
+Print Assumptions C16_testrequest.
+Theorem C16_resend :
+  forall cfg s d, (forall m, parse_as msgtype_ResendRequest tpl_ResendRequest d <> Ok m) \/ is_logged s = false ->
+    handler_rejects cfg s HResend d.
+Proof. exact resend_invalid. Qed.
+Print Assumptions C16_resend.
+Theorem C16_logon_damaged :
+  forall cfg s d, (forall m, parse_as msgtype_Logon tpl_Logon d <> Ok m) -> handler_rejects cfg s HLogon d.
+Proof. exact logon_damaged. Qed.
+Print Assumptions C16_logon_damaged.
+Theorem C16_logout_damaged :
+  forall cfg s d, (forall m, parse_as msgtype_Logout tpl_Logout d <> Ok m) -> handler_rejects cfg s HLogout d.
+Proof. exact logout_damaged. Qed.
+Print Assumptions C16_logout_damaged.
+Theorem C16_logon_when_logged :
+  forall cfg s d lm, parse_as msgtype_Logon tpl_Logon d = Ok lm -> s_state s = SuccessfulLogged ->
+    run_in_handler cfg s HLogon d =
+    (let '(s', o) := session_send cfg s (mk_reject reject_other 0%Z (get_int tag_MsgSeqNum (m_header lm))) in (s', o, true)).
+Proof. exact logon_when_logged. Qed.
+Print Assumptions C16_logon_when_logged.
+Theorem C16_logout_not_permitted :
+  forall cfg s d lm, parse_as msgtype_Logout tpl_Logout d = Ok lm ->
+    s_state s <> SuccessfulLogged -> s_state s <> WaitingLogoutAnswer ->
+    exists s1 o1, reject_message cfg s d = (s1, o1) /\
+      run_in_handler cfg s HLogout d = (upd_state (stop_timers s1) (state_after_logout cfg), o1, true).
+Proof. exact logout_not_permitted. Qed.
+Print Assumptions C16_logout_not_permitted.
+
+(* RejectMessage: exactly one message leaves, the Reject, stored first under its own number;
+   the logon state, the settings, the pools, the timers and both contexts are untouched
+   (only the outbound counter and the store advance) *)
+Theorem C16_one_reject_nothing_else :
+  forall cfg s d, clean cfg s -> save_first s ->
+    exists s' calls,
+      reject_message cfg s d = (s', calls ++ [OWire (fst (prepare (stamped s (reject_for d))))])
+      /\ Forall is_call calls /\ same_control s s' /\ s_cnt_out s' = (s_cnt_out s + 1)%Z
+      /\ clean cfg s' /\ save_first s'.
+Proof. exact reject_message_clean. Qed.
+Print Assumptions C16_one_reject_nothing_else.
+
+(* the Reject references the offending message's sequence number, or names tag 34 when that
+   number is missing or not numeric *)
+Theorem C16_reject_reference :
+  forall d,
+    match value_by_tag d tag_MsgSeqNum with
+    | Ok sb =>
+        match atoi sb with
+        | Some seq => get_kv tag_RefSeqNum (m_body (reject_for d)) = Some (VInt true seq)
+                      /\ get_kv tag_RefTagID (m_body (reject_for d)) = Some (VInt false 0%Z)
+        | None => get_kv tag_RefTagID (m_body (reject_for d)) = Some (VInt true tagnum_MsgSeqNum)
+        end
+    | _ => get_kv tag_RefTagID (m_body (reject_for d)) = Some (VInt true tagnum_MsgSeqNum)
+    end.
+Proof. exact reject_for_refs. Qed.
+Print Assumptions C16_reject_reference.
